@@ -20,7 +20,6 @@ from asyncio.coroutines import iscoroutine, iscoroutinefunction
 from asyncio.exceptions import CancelledError
 from asyncio.locks import Event, Semaphore
 from asyncio.tasks import Task, create_task, gather
-from contextlib import suppress
 from math import inf
 from typing import (
     TYPE_CHECKING,
@@ -761,13 +760,20 @@ class BaseTaskPool:
         Args:
             return_exceptions (optional): Passed directly into `gather`.
         """
-        with suppress(CancelledError):
-            await gather(
-                *self._meta_tasks_cancelled,
-                *self._pop_ended_meta_tasks(),
-                return_exceptions=return_exceptions,
-            )
-        self._meta_tasks_cancelled.clear()
+        # All of them have to be over before they are forgotten; that they end
+        # with a `CancelledError` is expected and no reason to stop waiting for
+        # the others.
+        cancelled_meta_tasks = set(self._meta_tasks_cancelled)
+        results = await gather(
+            *cancelled_meta_tasks,
+            *self._pop_ended_meta_tasks(),
+            return_exceptions=True,
+        )
+        self._meta_tasks_cancelled -= cancelled_meta_tasks
+        if not return_exceptions:
+            for result in results:
+                if isinstance(result, Exception):
+                    raise result
         # More tasks may end or get cancelled while we wait here (and may then
         # still be busy with their callbacks), so only the tasks actually
         # gathered are forgotten afterwards.
@@ -803,13 +809,15 @@ class BaseTaskPool:
         """
         self.lock()
         # The cancelled meta tasks are awaited separately, because the
-        # `CancelledError` of one of them (suppressed here) would otherwise
-        # end the wait for those meta tasks that are still spawning tasks.
-        with suppress(CancelledError):
-            await gather(
-                *self._meta_tasks_cancelled,
-                return_exceptions=return_exceptions,
-            )
+        # `CancelledError` of one of them would otherwise end the wait for the
+        # other ones and for those meta tasks that are still spawning tasks.
+        results = await gather(
+            *self._meta_tasks_cancelled, return_exceptions=True
+        )
+        if not return_exceptions:
+            for result in results:
+                if isinstance(result, Exception):
+                    raise result
         not_cancelled_meta_tasks = [
             task
             for task_set in self._group_meta_tasks_running.values()
